@@ -894,6 +894,50 @@ func runC20(w *World, r *Report) {
 			}
 		})
 		r.Check(okGate, "C20.workflow-compile-once", "Workflow.compile rejects declarations made after a successful Compile", wfc.Pos(), "compiled && pending -> ErrGraphCompiled", "nodes re-added / inputs or static values declared after a successful Compile are silently applied by the next Compile, which succeeds with different behaviour: the compiled workflow was modified")
+		// … and "pending" looks at every container of deferred declarations — the same three that (b) wants reset
+		{
+			looked := map[string]bool{}
+			collect := func(fn *ssa.Function, inRegion func(*ssa.BasicBlock) bool) []*ssa.Function {
+				var callees []*ssa.Function
+				for _, b := range fn.Blocks {
+					if !inRegion(b) {
+						continue
+					}
+					for _, in := range b.Instrs {
+						if c, ok := in.(*ssa.Call); ok {
+							if isBuiltin(c, "len") {
+								if f, _ := loadedField(c.Call.Args[0]); f != nil {
+									looked[f.Name()] = true
+								}
+							} else if sc := staticCallee(c); sc != nil && w.inRepo(sc) {
+								callees = append(callees, sc)
+							}
+						}
+						if rg, ok := in.(*ssa.Range); ok {
+							_ = rg
+						}
+					}
+				}
+				return callees
+			}
+			instrs(wfc, func(in ssa.Instruction) {
+				iff, ok := in.(*ssa.If)
+				if !ok || !isLoadOfField(iff.Cond, fCompiled) {
+					return
+				}
+				arm := iff.Block().Succs[0]
+				for _, cal := range collect(wfc, func(b *ssa.BasicBlock) bool { return b == arm || arm.Dominates(b) }) {
+					collect(cal, func(*ssa.BasicBlock) bool { return true })
+				}
+			})
+			var missing []string
+			for _, f := range []string{"addInputs", "workflowBranches", "staticValues"} {
+				if !looked[f] {
+					missing = append(missing, f)
+				}
+			}
+			r.Check(len(missing) == 0, "C20.workflow-compile-once", "Workflow.compile: 'pending' covers every kind of deferred declaration", wfc.Pos(), "len(addInputs), len(workflowBranches), len(staticValues) are all read on the compiled arm (directly or in the helper it calls)", "the test for declarations made after a successful Compile does not look at "+strings.Join(missing, ", ")+": declaring such a thing on a compiled workflow and compiling again returns a DIFFERENT runnable instead of ErrGraphCompiled, and modifies the inner graph (mapped-path trie, pre-node handlers) behind the runnable already handed out")
+		}
 	}
 
 	// ---- presence
